@@ -5,8 +5,10 @@
 //
 // The server under test is the real object.Server built by harness/objsrv (the
 // C29 harness) with FSChain.LocalNodeUnderMaintenance() switched on. Oracle:
-// the same generated valid request is sent with maintenance off (its effect
-// must be observable) and on (maintenance status, empty effect log).
+// the same generated request (valid, access-denied, bad token, badly signed) is
+// sent with maintenance off (the effect of a valid one must be observable) and
+// on (exactly the maintenance status, empty effect log including ACL reads;
+// badly signed requests may get the signature failure status instead).
 package c45
 
 import (
@@ -66,16 +68,27 @@ func expectedEffect(op objsrv.Op) string {
 	return "put.init"
 }
 
-// accessDefects are requests that are authentic but would be denied by the
-// access rules: in maintenance they must still touch nothing.
-var accessDefects = []objsrv.Defect{objsrv.DefBasicACL, objsrv.DefSticky, objsrv.DefEACLRequest, objsrv.DefEACLObjectAttr,
-	objsrv.DefEACLBearerDeny, objsrv.DefEACLHeader, objsrv.DefEACLHeaderRemote}
+// In every client handler of the unchanged tree the maintenance probe is the
+// second step, right after request signature verification (Put: per stream
+// message). So in maintenance EVERY authentic client request - valid, denied
+// by basic ACL / sticky bit / eACL, or carrying a bad session / bearer token -
+// must be answered with exactly NODE_UNDER_MAINTENANCE before any token or
+// access evaluation (which may read object headers from local storage or other
+// nodes). Documented exception: a request whose signatures do not verify may
+// be answered with the signature failure status instead; it must touch nothing either.
+func refusedClasses() []objsrv.Defect {
+	res := []objsrv.Defect{objsrv.DefNone}
+	for _, d := range objsrv.AllDefects() {
+		res = append(res, d)
+	}
+	return res
+}
 
 func TestC45ClientOps(t *testing.T) {
 	rec := ev.New("C45", "clientops")
 	defer rec.Flush()
 	env := newEnv(t)
-	defects := append([]objsrv.Defect{objsrv.DefNone}, accessDefects...)
+	defects := refusedClasses()
 	rapid.Check(t, func(t *rapid.T) {
 		s := objsrv.GenSpec(t, defects)
 		valid := s.Defect == objsrv.DefNone
@@ -117,8 +130,14 @@ func TestC45ClientOps(t *testing.T) {
 		if !on.Failed() {
 			fail("operation was not refused while in maintenance")
 		}
-		if valid && (on.Status != objsrv.StatusMaintenance || on.Err != nil) {
-			fail("valid client operation refused with status %d (err %v) instead of NODE_UNDER_MAINTENANCE (%d)", on.Status, on.Err, objsrv.StatusMaintenance)
+		switch {
+		case s.Defect.IsSignature():
+			if on.Err != nil || (on.Status != objsrv.StatusMaintenance && on.Status != objsrv.StatusSignature) {
+				fail("badly signed client operation refused with status %d (err %v): neither NODE_UNDER_MAINTENANCE (%d) nor the signature failure (%d)",
+					on.Status, on.Err, objsrv.StatusMaintenance, objsrv.StatusSignature)
+			}
+		case on.Status != objsrv.StatusMaintenance || on.Err != nil:
+			fail("authentic client operation (%v) refused with status %d %q (err %v) instead of NODE_UNDER_MAINTENANCE (%d)", s.Defect, on.Status, on.StatusMsg, on.Err, objsrv.StatusMaintenance)
 		}
 		rec.Label(fmt.Sprintf("on-status:%d", on.Status))
 	})
